@@ -585,6 +585,15 @@ pub fn generate(case_seed: u64, focus: TxFocus, max_total: usize) -> TxCfg {
             };
             policy.window = if rng.chance(0.7) { WindowMode::Const(big) } else { WindowMode::Const(*rng.pick(&[mss, 2 * mss + 100, 5 * mss])) };
             total = total.min(60_000);
+            // a little loss answered by selective ACKs in a quarter of the cases: holes in front of
+            // delivered segments (a size probe among them) while small writes keep coming
+            {
+                let mut a = Prng::new(case_seed ^ 0x1055_4A6);
+                if a.chance(0.25) {
+                    policy.sack_capable = true;
+                    policy.lose_first = *a.pick(&[0.02, 0.06, 0.15]);
+                }
+            }
         }
         TxFocus::Buffer => {
             sock.tx_buf_initial = Some(rng.log_range(1, 1 << 20) as usize);
